@@ -1391,6 +1391,51 @@ fn classify_coercion(prefix: &str, vdesc: &J, v: &Value, t: &FeelType, got: &Val
   if !got.is_null() && !got.type_of().is_conformant(t) {
     acc.bad(format!("{}coerce-result-not-conformant:{}", prefix, cls), vdesc, v, t, got, "a value whose type conforms to the target, or null");
   }
+  // the same, independent of Value::type_of and is_conformant: the result is null or structurally a value of the target type
+  *acc.checked.entry("result-inhabits-target-or-null").or_insert(0) += 1;
+  if !got.is_null() && !inhabits(got, t) {
+    acc.bad(
+      format!("{}coerce-result-does-not-inhabit-target:{}", prefix, cls),
+      vdesc,
+      v,
+      t,
+      got,
+      "null or a value that is structurally of the target type (every list item / context entry / range end point of the required type)",
+    );
+  }
+}
+
+/// Structural membership of a value in a type, written without Value::type_of and FeelType::is_conformant:
+/// null is a value of every type; a list inhabits list<T> when every item inhabits T; a context inhabits a context
+/// type when every required entry is present with an inhabiting value; a range by its end points; a function by the
+/// reference relation over its declared parameter and result types.
+fn inhabits(v: &Value, t: &FeelType) -> bool {
+  if matches!(v, Value::Null(_)) || matches!(t, FeelType::Any) {
+    return true;
+  }
+  match (t, v) {
+    (FeelType::Null, _) => false,
+    (FeelType::Boolean, Value::Boolean(_)) => true,
+    (FeelType::Number, Value::Number(_)) => true,
+    (FeelType::String, Value::String(_)) => true,
+    (FeelType::Date, Value::Date(_)) => true,
+    (FeelType::Time, Value::Time(_)) => true,
+    (FeelType::DateTime, Value::DateTime(_)) => true,
+    (FeelType::DaysAndTimeDuration, Value::DaysAndTimeDuration(_)) => true,
+    (FeelType::YearsAndMonthsDuration, Value::YearsAndMonthsDuration(_)) => true,
+    (FeelType::List(el), Value::List(items)) => items.as_vec().iter().all(|x| inhabits(x, el)),
+    (FeelType::Context(entries), Value::Context(ctx)) => entries.iter().all(|(name, et)| match ctx.get_entry(name) {
+      Some(x) => inhabits(x, et),
+      None => false,
+    }),
+    (FeelType::Range(el), Value::Range(a, _, b, _)) => inhabits(a, el) && inhabits(b, el),
+    (FeelType::Function(_, _), Value::FunctionDefinition(params, _, result)) => {
+      let vt = FeelType::Function(params.iter().map(|(_, pt)| pt.clone()).collect(), Box::new(result.clone()));
+      reference::conf(&vt, t) == V3::Yes
+    }
+    (FeelType::Function(_, _), Value::BuiltInFunction(_)) => true,
+    _ => false,
+  }
 }
 
 fn record_panic(prefix: &str, vdesc: &J, v: &Value, t: &FeelType, second: bool, acc: &mut CoerceAcc) {
@@ -1549,6 +1594,15 @@ fn value_pool(u: &[FeelType]) -> Vec<J> {
     json!([[null]]),
     json!([{"n": "1"}, null]),
     json!([{"n": "1"}, {"s": "a"}]),
+    // heterogeneous lists whose FIRST item is of a more specific type than a later one
+    json!([null, {"n": "1"}]),
+    json!([null, {"n": "1"}, {"s": "a"}]),
+    json!([null, true, {"n": "1"}]),
+    json!([[null], [{"n": "1"}]]),
+    json!([[], [{"n": "1"}], [{"s": "a"}]]),
+    json!([{"c": [["a", {"n": "1"}], ["b", true]]}, {"c": [["a", {"n": "1"}]]}]),
+    json!([{"c": [["a", null]]}, {"c": [["a", {"s": "x"}]]}]),
+    json!({"c": [["a", [null, {"n": "1"}, {"s": "a"}]]]}),
     json!([[{"n": "1"}]]),
     json!([[[{"n": "1"}]]]),
     json!([[{"n": "1"}, {"n": "2"}]]),
